@@ -269,6 +269,42 @@ def run_case(ctx, rng, index, casedir):
                 sel.append((label, read_text(out) if o.ok else f"<{o.brief()}>"))
             all_equal(assoc, viol, "node -> record association of the index", sub)
             all_equal(sel, viol, "view -n selection", sub)
+            # the path that held the BGZF copy now holds the plain bytes (a work file rewritten with
+            # another compression, same process): what is read from it must follow its content
+            plain_cfg = next((c for c in cfgs if not c[1].endswith(".gz")), None)
+            gz_cfg = next((c for c in cfgs if c[1].endswith(".gz")), None)
+            if plain_cfg and gz_cfg and rng.random() < 0.5:
+                sit["path_rewritten_with_other_compression"] += 1
+                data = open(plain_cfg[1], "rb").read()
+                with open(gz_cfg[1], "wb") as f:
+                    f.write(data)
+                if os.path.exists(gz_cfg[1] + ".gvi"):
+                    os.remove(gz_cfg[1] + ".gvi")
+                o = run_cli(["index", gz_cfg[1], gz_cfg[2]])
+                if o.ok:
+                    with open(gz_cfg[1] + ".gvi", "rb") as f:
+                        ind2 = pickle.load(f)
+                    ind2.pop("ref_contig", None)
+                    a2 = {}
+                    bad2 = 0
+                    for key, offs in ind2.items():
+                        ids = set()
+                        for off in set(offs):
+                            ln = None
+                            if 0 <= off < len(data):
+                                e = data.find(b"\n", off)
+                                ln = data[off:e if e != -1 else len(data)].decode()
+                            i = line_index.get(ln)
+                            if i is None or (off > 0 and data[off - 1:off] != b"\n"):
+                                bad2 += 1
+                            ids.add(i)
+                        a2[key[0]] = sorted(x for x in ids if x is not None)
+                    ref_a = next((a for lab, a in assoc if lab == plain_cfg[0]), None)
+                    if bad2 or (isinstance(ref_a, dict) and a2 != ref_a):
+                        viol.append({"kind": "compression_dependence", "msg": f"{sub}: a path that held BGZF data and now holds the plain bytes is indexed differently from the plain file ({bad2} offsets that are not record starts)",
+                                     "witness": {"sub": sub, "config": "rewritten:" + gz_cfg[0]}})
+                else:
+                    viol.append({"kind": "compression_dependence", "msg": f"{sub}: index of the rewritten path failed: {o.brief()}", "witness": {"sub": sub}})
         else:  # phase
             names = [l.split("\t")[0] for l in lines]
             tsv = os.path.join(casedir, "h.tsv")
